@@ -431,17 +431,19 @@ impl EvalResult {
 
     pub fn sparql_eq(&self, other: &Self) -> Option<bool> {
         if let (Some(s), Some(o)) = (self.as_value(), other.as_value()) {
-            s.sparql_eq(o)
-        } else {
-            let s = self.as_term();
-            let o = other.as_term();
-            if Term::eq(&s, &o) {
-                Some(true)
-            } else if s.is_literal() && o.is_literal() {
-                None // distinct unrecognized literals can not be compared
-            } else {
-                Some(false)
+            if let Some(eq) = s.sparql_eq(o) {
+                return Some(eq);
             }
+        }
+        // the values (if any) can not be compared: fall back to RDFterm-equal
+        let s = self.as_term();
+        let o = other.as_term();
+        if Term::eq(&s, &o) {
+            Some(true)
+        } else if s.is_literal() && o.is_literal() {
+            None // distinct literals without comparable values can not be compared
+        } else {
+            Some(false)
         }
     }
 
